@@ -64,6 +64,24 @@ Next ==
   /\ UNCHANGED <<n, es, edges>>
 Spec == Init /\ [][Next]_vars
 
+\* Second family (MC_Checker_dag4.cfg): every labelled DAG on 4 nodes (543 of them; all numberings
+\* of every shape incl. diamonds, multiple roots, isolated nodes), encoded with running edge offsets
+\* (no leaf markers: empty slices), x the same placements of post reads / misbehaving node.
+Pairs4 == {p \in (0..3) \X (0..3) : p[1] # p[2]}
+Acyclic4(G) == \A m \in 0..3 : m \notin ReachFrom(G, 0..3, {m}, {})
+RECURSIVE SortSet(_)
+SortSet(S) == IF S = {} THEN <<>> ELSE LET m == CHOOSE x \in S : \A y \in S : x <= y IN <<m>> \o SortSet(S \ {m})
+KidsOf(G, i) == SortSet({j \in 0..3 : <<i, j>> \in G})
+RECURSIVE KidsUpTo(_, _)
+KidsUpTo(G, i) == IF i < 0 THEN <<>> ELSE KidsUpTo(G, i - 1) \o KidsOf(G, i)
+InitDag4 ==
+  /\ n = 4
+  /\ \E G \in SUBSET Pairs4 :
+       /\ Acyclic4(G)
+       /\ edges = KidsUpTo(G, 3)
+       /\ es = [i \in 1..4 |-> Len(KidsUpTo(G, i - 2))]
+  /\ posts = {} /\ badNode = -1 /\ badKind = "n" /\ all = FALSE /\ ready = FALSE
+
 Pred == [nodes |-> [i \in 1..n |-> [es |-> es[i], prog |-> i]], edges |-> edges]
 Case == [sols |-> <<[contract |-> <<1, 2, 3, 4>>, pred |-> 1, predw |-> <<5, 6, 7, 8>>, pdata |-> <<>>, decl |-> <<>>]>>,
          preds |-> <<Pred>>,
